@@ -45,9 +45,8 @@ __CPROVER_assigns(g_q_g, g_q_h, g_q_count);
 //@assume A5/R17: tmp (vector of vectors) is abstracted to its defining cell function (ghost observation of one arbitrary cell while it is filled; reads go through the stub vf_tmp whose precondition is index validity); IsPositive/std::reverse on a quad are stubs (orientation normalisation is not verified); result/tmp growth is only counted.
 
 //@extract file=CPP/Clipper2Lib/include/clipper2/clipper.minkowski.h func=Minkowski byval=pattern,path rangefor=1 vec=pattern,path
-//@presub /Path64 path2\(pattern\.size\(\)\);\s*std::transform\(pattern\.cbegin\(\), pattern\.cend\(\),\s*path2\.begin\(\), \[p\]\(const Point64& pt2\) \{return p ([+-]) pt2; \}\);\s*tmp\.emplace_back\(std::move\(path2\)\);/for (size_t vf_t = 0; vf_t < pattern.size(); ++vf_t) VF_ROW_SET(vf_i_p, vf_t, VF_OP\1(p, pattern[vf_t]));/ min=2
-//@presub /VF_OP\+\(/Point64_add(/
-//@presub /VF_OP-\(/Point64_sub(/
+//@presub /Path64 path2\(pattern\.size\(\)\);\s*std::transform\(pattern\.cbegin\(\), pattern\.cend\(\),\s*path2\.begin\(\), \[p\]\(const Point64& pt2\) \{\s*return ([^;]+); \}\);\s*tmp\.emplace_back\(std::move\(path2\)\);/for (size_t vf_t = 0; vf_t < pattern.size(); ++vf_t) VF_ROW_SET(vf_i_p, vf_t, VFL<<\1>>);/ min=2
+//@pysub point_lambda min=2
 //@presub /Paths64 tmp;\s*tmp\.reserve\(pathLen\);//
 //@presub /return Paths64\(\);/return (Paths64){0, 0};/
 //@presub /Paths64 result;/Paths64 result = {0, 0};/
